@@ -173,3 +173,9 @@ def gen(rnd, tier):
 
 
 shrink = tgops.shrink_tg
+
+
+# random walks of mutators on ONE living Textgrid (harness/living.py): the breadth-first enumeration above rebuilds the
+# textgrid before every call, which covers every operation sequence only if the object remembers nothing else
+import living  # noqa: E402
+living.install_tg(globals(), all_ops)
